@@ -3,6 +3,7 @@ import PttVerif.Model.C18
 import PttVerif.Model.C18Ansi
 import PttVerif.Model.C18Misc
 import PttVerif.Model.C18Alias
+import PttVerif.Model.C18Move
 open PttVerif PttVerif.C18
 
 /-- two hex fields. -/
@@ -76,7 +77,7 @@ def runHistOp (allowRef : Bool) (ws : List String) : String :=
 casehasprefix s p | tokenr s sep
 (group 2): stripansi <flag> h
 (group 3): readlines h | strhash h | strhashbits h | stripnb5 h | dbcsnext <c> <prev> | dbcsstatus <pos> h |
-dbcstrim h | trim h | trimdbcs h | subjectex h
+dbcstrim h | trim h | trimdbcs h | subjectex h | startswith str prefix | movecmd h
 (ownership): hist <step>... | conc <step>... (steps: see `parseStep`) -/
 def stepC18 (_ : Unit) (ws : List String) : Unit × String :=
   let out := match ws with
@@ -137,6 +138,12 @@ def stepC18 (_ : Unit) (ws : List String) : Unit × String :=
     | ["subjectex", h] => match parseHex h with
         | some s => if s.length = TTLEN + 1 then
             showM (fun (p : Nat × List Nat) => toString p.1 ++ " " ++ toHex p.2) (subjectEx s) else "bad-op"
+        | none => "bad-op"
+    | ["movecmd", h] => match parseHex h with
+        | some s => showM toHex (stripANSIMoveCmd s)
+        | none => "bad-op"
+    | ["startswith", a, b] => match hex2 a b with
+        | some (x, y) => showM (fun (r : Bool) => if r then "1" else "0") (strcaseStartsWith x y)
         | none => "bad-op"
     | "hist" :: steps => runHistOp true steps
     | "conc" :: steps => runHistOp false steps
